@@ -144,7 +144,7 @@ def text_filter():
         texts = []
         for _ in range(rnd.randrange(0, 7)):
             texts.append(pm_types.LocalizedText('\n'.join('x' for _ in range(rnd.randrange(1, 4))), lang=rnd.choice(langs),
-                                                ref=rnd.choice(refs), version=rnd.choice([1, 2, 3]),
+                                                ref=rnd.choice(refs), version=rnd.choice([0, 1, 2, 3]),
                                                 text_width=rnd.choice(widths)))
         store = localizationservice.LocalizationStorage(texts)
         latest = max([t.Version for t in texts], default=None)
@@ -152,7 +152,7 @@ def text_filter():
         for _ in range(12):
             cases += 1
             req_refs, req_langs = opt(refs + ['zz'], 2), opt(langs, 2)
-            req_ver = rnd.choice([None, 1, 2, 3, 9])
+            req_ver = rnd.choice([None, 0, 0, 1, 2, 3, 9])
             req_w, req_l = opt(widths[1:], 2), opt([1, 2, 3], 2)
             try:
                 got = store.filter_localized_texts(req_refs, req_ver, req_langs, req_w, req_l)
